@@ -210,6 +210,7 @@ def enumerate_stops(ctx, conf, tmpdir):
             for j in range(conf["schedules_per_point"]):
                 case = dict(base)
                 case["logger"] = bool((k + j) % 3 == 0)  # as --debug / --debug-file do
+                case["stale_files"] = bool((k + j) % 2 == 0)  # an earlier session's files sit at the output paths
                 case["stop"] = {"after_reads": k, "extra_steps": rng.choice((0, 0, 1, 2, 3, 5, 8))}
                 case["strategy"] = P.S.NAMES[(k + j) % len(P.S.NAMES)]
                 case["sched_seed"] = rng.getrandbits(32)
